@@ -1,5 +1,6 @@
-"""C28 real-process part: builds three libraries with ffi.embedding_api() against the
-real libpython: _c28A and _c28B with slow init code, _c28F whose init code raises.
+"""C28 real-process part: builds four libraries with ffi.embedding_api() against the
+real libpython: _c28A and _c28B with slow init code, _c28F whose init code raises,
+_c28R whose init code calls its own exported function through C and then goes on.
 usage: python build.py <init log file>"""
 import cffi, sys
 LOG = sys.argv[1]
@@ -9,7 +10,7 @@ import os, time
 fd = os.open(%r, os.O_WRONLY | os.O_APPEND | os.O_CREAT)
 os.write(fd, b"init-start %s\n")
 time.sleep(0.03)
-from %s import ffi
+from %s import ffi, lib
 state = {'ready': False}
 @ffi.def_extern()
 def %s(x):
@@ -21,11 +22,11 @@ os.write(fd, b"init-end %s\n"); os.close(fd)
 """
 
 
-def mk(name, fn, ok=True):
+def mk(name, fn, ok=True, extra=None):
     ffi = cffi.FFI()
     ffi.embedding_api("int %s(int);" % fn)
     ffi.embedding_init_code(INIT % (LOG, name, name, fn,
-                                    '' if ok else 'raise ValueError("init fails")', name))
+                                    extra or ('' if ok else 'raise ValueError("init fails")'), name))
     ffi.set_source(name, "")
     ffi.compile(verbose=False)
 
@@ -33,3 +34,4 @@ def mk(name, fn, ok=True):
 mk('_c28A', 'fnA')
 mk('_c28B', 'fnB')
 mk('_c28F', 'fnF', False)
+mk('_c28R', 'fnR', True, 'lib.fnR(5); os.write(fd, b"after-own-call _c28R\\n")')
